@@ -23,7 +23,7 @@ import numpy as np
 from common import Ctx, Finding, Outcome, err_class
 
 PROPERTY = "C07"
-LEAN_TARGETS = ["QcelVerif.Props.C07", "QcelVerif.Driver.C07"]
+LEAN_TARGETS = ["QcelVerif.Props.C07", "QcelVerif.Lemmas.MolTextJoin", "QcelVerif.Props.C07Text", "QcelVerif.Driver.C07"]
 DRIVER = "QcelVerif/Driver/C07.lean"
 THEOREMS = [
     ("QcelVerif.MolText.tokens_roundtrip", "splitting the join of non-empty separator-free tokens (any non-empty [\\t ,]+ runs between them) returns the tokens"),
@@ -46,6 +46,21 @@ THEOREMS = [
     ("QcelVerif.MolText.numVal_trailing_zero", "a trailing zero of the fraction does not change the value read"),
     ("QcelVerif.MolText.isNumber_exp_case", "E, e, D and d exponent letters are interchangeable (accepted alike, same value)"),
     ("QcelVerif.MolText.parse_total", "the text-level model returns either a processed record or MoleculeFormatError (or declares the text outside its scope) - by construction; its content is the correspondence"),
+    ("QcelVerif.MolText.written_psi4_clean", "every line writePsi4 prints for a record meeting RecOk holds no '#' and no newline and begins and ends with a non-blank character (last one not a backslash)"),
+    ("QcelVerif.MolText.written_xyz_clean", "every line writeXyz prints for a record meeting XyzOk (title text without '#'/newline) holds no '#' and no newline and is not blank; all but the title line begin and end with a non-blank character"),
+    ("QcelVerif.MolText.textLines_join", "for lines without '#'/newline whose first and last are not blank: strip -> filter_comments -> split('\\n') -> per-line strip of their '\\n'-join gives the per-line strip of the lines"),
+    ("QcelVerif.MolText.textLines_comments", "the same with an arbitrary '#comment' (no newline) after any line whose line part does not end in a backslash: the stripped line parts come back"),
+    ("QcelVerif.MolText.read_write_psi4_text", "psi4, TEXT level: the whole reader model (outer strip, filter_comments, line split, per-line strip, line filters) on '\\n'.join(written lines)+'\\n' gives projectPsi4 r for every record meeting RecOk"),
+    ("QcelVerif.MolText.read_write_xyzplus_text", "xyz+, TEXT level: the whole reader model on the written text gives projectXyzPlus r for every record meeting XyzOk whose title text holds no '#'/newline"),
+    ("QcelVerif.MolText.read_write_xyz_text", "strict xyz, TEXT level: the whole reader model on the text written for a ghost-free Angstrom record gives projectXyz r"),
+    ("QcelVerif.MolText.parseText_frame", "whitespace (incl. empty lines) before and after ANY text does not change what the reader model returns, for every dtype"),
+    ("QcelVerif.MolText.psi4_layout_insensitive", "two laid-out psi4 texts (lines with optional comments, surrounding whitespace) with the same non-blank stripped line parts read alike"),
+    ("QcelVerif.MolText.xyz_layout_insensitive", "xyz / xyz+: the same with the two header lines kept in place"),
+    ("QcelVerif.MolText.psi4_text_layout", "any laid-out text whose non-blank stripped line parts are the written psi4 lines reads back as projectPsi4 r"),
+    ("QcelVerif.MolText.xyzplus_text_layout", "any laid-out text whose header line parts strip to the written header lines and whose non-blank stripped body line parts are the written atom lines reads back as projectXyzPlus r"),
+    ("QcelVerif.MolText.xyz_text_layout", "the same for strict xyz and projectXyz r"),
+    ("QcelVerif.MolText.read_write_psi4_text_comments", "the written psi4 text with an arbitrary '#comment' after any of its lines and arbitrary whitespace around it still reads back as projectPsi4 r"),
+    ("QcelVerif.MolText.psi4_insert_blank_line", "inserting a blank or comment-only line between two lines of a laid-out psi4 text does not change what is read"),
 ]
 TRUSTED_BASE = [
     "Lean 4.33 kernel; axioms per theorem audited on every run (subset of propext, Classical.choice, Quot.sound)",
@@ -73,8 +88,9 @@ RULE = (
 )
 LEVEL_TEXT = (
     "proof, partial: the M2 theorems (tokenisation, number/nucleus recognisers accept and decode what the writers print, "
-    "read(write r) = project r for xyz/xyz+/psi4 with any number of fragments, blank-line/comment/number-respelling invariance) are proved for all "
-    "records; that the real regex-driven from_string equals the hand-written line-filter model M1 is established by differential "
+    "read(write r) = project r for xyz/xyz+/psi4 with any number of fragments - on the written lines and on the written TEXT through strip, "
+    "filter_comments and the line split -, blank-line/comment/surrounding-whitespace/number-respelling invariance) are proved for all "
+    "records (xyz title text assumed free of '#' and newline); that the real regex-driven from_string equals the hand-written line-filter model M1 is established by differential "
     "correspondence on generated texts only; totality and the end-to-end round trip (through validation, hash) are oracle-checked."
 )
 TECHNIQUE = "Lean 4 proofs about a token/line-level model of writers and reader + differential correspondence of a line-filter model against from_string(return_processed=True) + Python oracle"
